@@ -18,7 +18,7 @@ Rec == ndJsonDeserialize(IOEnv.TRACE)
 VARIABLES l, s
 ANY == <<0, 0, 0, 0>>
 T(x) == <<x[1], x[2], x[3], x[4]>>
-Init0 == [run |-> -1, arp |-> FALSE, mtu |-> 0, nm |-> 0, bound |-> {}, sent |-> {}, dem |-> {},
+Init0 == [run |-> -1, arps |-> <<>>, mtu |-> 0, nm |-> 0, bound |-> {}, sent |-> {}, dem |-> {},
           bad |-> {}, nbad |-> 0, runs |-> 0, events |-> 0, nreply |-> 0, ndem |-> 0, nrdem |-> 0]
 Viol(t, e, clause) ==
   IF Cardinality({x \in t.bad : x.clause = clause}) >= 3 THEN [t EXCEPT !.nbad = @ + 1]
@@ -31,7 +31,7 @@ Entitled(t, m, a, p) ==
 Owner(a) == a[4] \div 10                          \* the harness gives machine k the addresses 10.0.0.(10k+1|2)
 Step(t, e) ==
   LET t0 == [t EXCEPT !.events = @ + 1] IN
-  CASE e.ev = "reset" -> [t0 EXCEPT !.run = e.run, !.runs = @ + 1, !.arp = e.arp, !.mtu = e.mtu, !.nm = e.nm,
+  CASE e.ev = "reset" -> [t0 EXCEPT !.run = e.run, !.runs = @ + 1, !.arps = e.arps, !.mtu = e.mtu, !.nm = e.nm,
                                    !.bound = {}, !.sent = {}, !.dem = {}]
     [] e.ev = "bind" ->
          LET taken == \E b \in t.bound : b.m = e.m /\ b.addr = T(e.addr) /\ b.port = e.port
@@ -61,7 +61,7 @@ Step(t, e) ==
     [] e.ev = "end" ->
          \* on a loss-free link the entitled listener of every machine the frame reaches got it
          \* (an answer sent through the session that delivered a datagram is addressed to the hardware address it came from)
-         LET Reach(d) == IF t.arp \/ d.reply THEN {Owner(d.dst)} \cap (0..(t.nm - 1)) ELSE 0..(t.nm - 1)
+         LET Reach(d) == IF t.arps[d.m + 1] \/ d.reply THEN {Owner(d.dst)} \cap (0..(t.nm - 1)) ELSE 0..(t.nm - 1)
              missing == {d \in t.sent : \E m \in Reach(d) :
                            Entitled(t, m, d.dst, d.dport) >= 0 /\ ~\E x \in t.dem : x.m = m /\ x.id = d.id}
          IN IF missing = {} THEN t0 ELSE Viol(t0, e, "a datagram did not reach the application bound to its address and port")
